@@ -43,6 +43,7 @@ VARIANTS = {
 
 UNITS = {
     "c01": {"kind": "exe", "src": ["units/c01_int_arith.cpp"]},
+    "c03": {"kind": "exe", "src": ["units/c03_compare_mask.cpp"]},
     "c02": {"kind": "exe", "src": ["units/c02_fp_basic.cpp"], "aux": {"ref": {"src": "common/ref.cpp", "flags": ["-ffp-contract=off", "-fno-builtin"]}}, "link": ["ref"]},
 }
 
@@ -98,6 +99,25 @@ PROPS = {
                 "(op,type,arch,lane,class of each operand); " + ALL22,
         "assumptions": COMMON_ASSUME + ["sign of zero free where the property says so; NaN payload/sign not compared", "ldexp exponent restricted to 2^e normal (DESIGN.md 5.3)"],
         "floor": {"quick": 10**7, "thorough": 10**9},
+    },
+    "C03": {
+        "technique": "runtime monitoring: scalar-predicate / Boolean-algebra oracle on every lane, each batch_bool read back three ways, exhaustive masks for <=16 lanes",
+        "level_text": "Every comparison and batch_bool operation observed is compared per lane with the scalar predicate / Boolean function, reading each result through "
+                      "store, mask() and get(i); all 2^size masks are enumerated for size <= 16 and all mask pairs for size <= 4 (quick) / <= 8 (thorough); select and the bool "
+                      "round trips are compared bit-exactly. Operand values and masks of wider batches are sampled: exploration.",
+        "level_note": "Trusts the compiler's scalar comparison semantics as the reference. Comparison operands for 32/64-bit and floating types are sampled.",
+        "design_ref": "DESIGN.md section 6 C03",
+        "jobs": [
+            {"unit": "c03"},
+            {"unit": "c03", "variant": "native", "tiers": ["thorough"], "args": ["--scale", "0.2"]},
+            {"unit": "c03", "variant": "ndebug", "tiers": ["thorough"], "args": ["--scale", "0.2"]},
+            {"unit": "c03", "variant": "clang", "tiers": ["thorough"], "args": ["--scale", "0.2"]},
+        ],
+        "rule": "each evaluation = one lane of one comparison / mask operation compared with the scalar model via store, mask() and get(i); operands from the hostile lattice "
+                "(NaN, +-0, MIN, MAX, ...) with 25% of lanes forced equal; masks: independent random pairs, one-hot/all-but-one/prefix/suffix for every lane, all 2^size masks "
+                "(size <= 16), all mask pairs (size <= 4 quick, <= 8 thorough); distinct cell = (op,type,arch,mask/operand class,lane,expected value); " + ALL22,
+        "assumptions": COMMON_ASSUME + ["from_mask only with bits below size (documented precondition)"],
+        "floor": {"quick": 10**7, "thorough": 10**8},
     },
     "C08": {
         "technique": "runtime monitoring: C library rounding functions as reference oracle on every lane, float32 strided/exhaustive, 22 architectures",
